@@ -162,7 +162,56 @@ def extract(incdirs):
         if fname not in fields:
             raise ParamError("curve %s uses field %s which is not selectable" % (name, fname))
         curves[name] = c
+    # advertised security levels: the switch of ep_param_level
+    m = re.search(r"int ep_param_level\(void\) \{(.*?)\n\}", ep_c, flags=re.S)
+    if not m:
+        raise ParamError("ep_param_level not found")
+    for grp in re.finditer(r"((?:case \w+:\s*)+)return (\d+);", m.group(1)):
+        for nm in re.findall(r"case (\w+):", grp.group(1)):
+            if nm in curves:
+                curves[nm]["level"] = int(grp.group(2))
+    # twists: the table of ep2_curve_set_twist
+    e2_path = os.path.join(REPO, "src/epx/relic_ep2_curve.c")
+    e2_c = pp(e2_path, incdirs)
+    e2str = dict(re.findall(r'^#define (\w+)\s+"([0-9A-Fa-f\-]*)"$', e2_c, flags=re.M))
+    m = re.search(r"void ep2_curve_set_twist\(int type\) \{(.*?)\n\}", e2_c, flags=re.S)
+    if not m:
+        raise ParamError("ep2_curve_set_twist not found")
+    for cm in re.finditer(r"case (\w+):\s*ASSIGN\((\w+)\);", m.group(1)):
+        name, cname = cm.groups()
+        if name not in curves:
+            continue
+        if name != cname:
+            raise ParamError("twist case %s assigns %s" % (name, cname))
+        t = {}
+        for k in ("A0", "A1", "B0", "B1", "X0", "X1", "Y0", "Y1", "R", "H"):
+            key = "%s_%s" % (name, k)
+            if key not in e2str:
+                raise ParamError("missing twist constant %s" % key)
+            t[k] = int(e2str[key], 16)
+        curves[name]["twist"] = t
     return fields, curves, enums
+
+
+def derive_qnr(p):
+    """the quadratic non-residue fp_prime_set derives for p (src/fp/relic_fp_prime.c): -1 for p = 3 mod 4, -2 for p = 5 mod 8, else the first
+    of -6/-7… that is a non-residue; the value is compared with what the running library reports"""
+    if p % 4 == 3:
+        return -1
+    if p % 8 == 5:
+        return -2
+    q = 2
+    while pow((-q) % p, (p - 1) // 2, p) == 1:
+        q += 1
+    return -q
+
+
+def isqrt_exact(n):
+    import math
+    if n < 0:
+        return 0
+    r = math.isqrt(n)
+    return r
 
 
 FAMILY_CODE = {"EP_BN": 1}
@@ -184,11 +233,22 @@ def write_lean(fields, curves, enums, out_path):
     rows = []
     for n, c in sorted(curves.items()):
         fl = c["flags"]
+        tw = "none"
+        if c.get("twist"):
+            t = c["twist"]
+            f = fields[c["field"]]
+            pr = f["p"] if f["kind"] != "pairf" else bn_p(f["x"])
+            tr = pr + 1 - c["H"] * c["R"]
+            t2 = tr * tr - 2 * pr
+            f2 = isqrt_exact((4 * pr * pr - t2 * t2) // 3)
+            tw = ("some { a0 := 0x%x, a1 := 0x%x, b0 := 0x%x, b1 := 0x%x, x0 := 0x%x, x1 := 0x%x, y0 := 0x%x, y1 := 0x%x, "
+                  "r := 0x%x, h := 0x%x, qnr := %d, f2 := 0x%x }" % (t["A0"], t["A1"], t["B0"], t["B1"], t["X0"], t["X1"], t["Y0"], t["Y1"],
+                                                                     t["R"], t["H"], derive_qnr(pr), f2))
         rows.append('  { name := "%s", id := %d, field := "%s", a := %d, b := 0x%x, gx := 0x%x, gy := 0x%x, r := 0x%x, h := 0x%x,\n'
-                    '    plain := %s, endom := %s, pairf := "%s" }' % (
+                    '    plain := %s, endom := %s, pairf := "%s", level := %d,\n    twist := %s }' % (
                         n, c["id"], c["field"], c["A"], c["B"], c["X"], c["Y"], c["R"], c["H"],
                         "true" if fl.get("plain") == "1" else "false", "true" if fl.get("endom") == "1" else "false",
-                        fl.get("pairf", "")))
+                        fl.get("pairf", ""), c.get("level", 0), tw))
     L.append(",\n".join(rows))
     L.append("]\n")
     L.append("end Relic.Gen.Params")
